@@ -116,6 +116,18 @@ fn exec_argv(toks: &[String], rng: &mut Rng) -> Vec<String> {
 pub fn run_c09(ctx: &Ctx, sink: &mut Sink) {
     let mut rng = Rng::new(ctx.seed).fork(9);
     let rec = ctx.recorder().as_os_str().as_bytes().to_vec();
+    // the starting point "/" (no parent directory, no file name)
+    {
+        let sc = build_scene(ctx, &mut rng, nasty_names(), false);
+        for dir in [true, false] {
+            let roots = vec![(b"/".to_vec(), crate::world::observe_root_shallow(b"/", std::path::Path::new("/")))];
+            let tok = format!("exec:{}:1:{}:{}", dir as u8, hex(&rec), hexjoin(&[b"{}".to_vec(), b"x{}y".to_vec()]));
+            let toks = vec!["maxdepth:0".to_string(), tok, format!("lit:{}", hex(b"T\n"))];
+            let (req, imp) = run_exec_case(ctx, &sc, "P", &roots, &ExecCase { toks, script: vec![] }, &mut rng);
+            sink.push(Case { req, imp, tags: vec!["single", "root-dir", "nt"] });
+        }
+        let _ = std::fs::remove_dir_all(&sc.dir);
+    }
     let scenes = if ctx.thorough { 400 } else { 40 };
     for _si in 0..scenes {
         let sc = build_scene(ctx, &mut rng, nasty_names(), false);
@@ -213,6 +225,22 @@ pub fn run_c08(ctx: &Ctx, sink: &mut Sink) {
         run_big(ctx, sink, &mut rng, stack, n, len, dir);
     }
     let rec = ctx.recorder().as_os_str().as_bytes().to_vec();
+    // the starting point "/" has no parent directory: its -execdir batch is dispatched by finished()
+    {
+        let sc = build_scene(ctx, &mut rng, nasty_names(), false);
+        for (dir, form) in [(true, "execm"), (false, "execm")] {
+            let roots = vec![(b"/".to_vec(), crate::world::observe_root_shallow(b"/", std::path::Path::new("/")))];
+            let tok = if form == "execm" {
+                format!("execm:0:{}:1:{}:{}", dir as u8, hex(&rec), hexjoin(&[b"A1".to_vec()]))
+            } else {
+                format!("exec:{}:1:{}:{}", dir as u8, hex(&rec), hexjoin(&[b"{}".to_vec()]))
+            };
+            let toks = vec!["maxdepth:0".to_string(), tok];
+            let (req, imp) = run_exec_case(ctx, &sc, "P", &roots, &ExecCase { toks, script: vec![] }, &mut rng);
+            sink.push(Case { req, imp, tags: vec!["multi", "root-dir", "nt"] });
+        }
+        let _ = std::fs::remove_dir_all(&sc.dir);
+    }
     let scenes = if ctx.thorough { 400 } else { 40 };
     for _si in 0..scenes {
         let sc = build_scene(ctx, &mut rng, nasty_names(), false);
